@@ -374,6 +374,14 @@ def run(ctx):
     runs = [(os.path.join(data, "1AJJ.pdb"), ["--ff=AMBER"]),
             (os.path.join(data, "cterm_hid.pdb"), ["--ff=PARSE"]),
             (os.path.join(data, "5vav_cyclic_peptide.pdb"), ["--ff=AMBER"])]      # has atoms with a coordinate of exactly 0.000
+    runs += [(os.path.join(data, "5vav_cyclic_peptide.pdb"), ["--ff=AMBER", "--titration-state-method=propka", "--with-ph=7"])]   # hydrogens in the input, stripped between the debump passes
+    # resolved acids and other inputs that reach rarely used optimisation branches
+    from .. import corpus as shared
+    for n, j in enumerate([j for j in shared.variants(True, random.Random(ctx.seed + 9)) if any(k in j["what"] for k in ("long C", "named acids", "exchanged", "alternative spelling", "half-the-hydrogens"))]):
+        pth = os.path.join(ctx.work, f"variant{n}.pdb")
+        os.makedirs(ctx.work, exist_ok=True)
+        open(pth, "w").write(j["text"])
+        runs.append((pth, j["args"]))
     # hard clashes (waters on the positions of future hydrogens): the debumper scans, fails, restores
     from .c04 import clash_inputs
     hard = [j for j in clash_inputs(ctx, random.Random(ctx.seed + 5)) if j.get("light")]
